@@ -40,6 +40,10 @@ class QueueProxy:
     def __init__(self, real, role):
         self.real, self.role = real, role
 
+    def __getattr__(self, name):
+        # close / join_thread / cancel_join_thread / empty ...: whatever the code under test calls on a queue reaches the real one
+        return getattr(self.real, name)
+
     def put(self, item, *a, **k):
         who = actor()
         v = vid(item)
@@ -120,6 +124,10 @@ class HandleProxy:
         if not self.state.started:
             self.state.started = True
             log(['CStart'])
+        elif self.name == 'fetcher':
+            log(['CStartF'])
+        elif self.name != 'producer':
+            log(['CFork', int(self.name[1:])])
         return self.real.start()
 
     def join(self, *a, **k):
